@@ -241,9 +241,11 @@ def obligations(tier: str) -> List[dict]:
         for c in range(NCALLS):
             add('h_pure', '(a,b,d) purity/repeatability/identity', 400,
                 ['ran'], n=1, call=c)
+            # calls whose code iterates sets get the larger trees
+            deep = c in (0, 3, 6, 7, 8, 11, 12, 13, 14, 18)
             add('h_setorder', '(c) set iteration order', 400,
-                ['sets-iterated'] if c in (0, 11, 12) else [], n=2, width=3,
-                call=c)
+                ['sets-iterated'] if c in (0, 11, 12) else [],
+                n=2 if deep else 1, width=3, call=c)
         for c in (0, 6, 7, 8, 12, 13):
             add('h_pure', '(a,b,d) purity/repeatability/identity', 400, n=2,
                 call=c, other=(c + 5) % NCALLS)
